@@ -238,7 +238,7 @@ func (m *Monitor) OnBegin(s *apphist.Sim, a *apphist.BeginArgs, preD, postD stri
 				continue
 			}
 			if d.Total != v.Power {
-				if !early && s.GenesisEligible && !s.EverRestarted && !m.seen["C10/valset-mirror-block1"] && s.TMError == "" {
+				if !early && s.GenesisEligible && !m.seen["C10/valset-mirror-block1"] && s.TMError == "" {
 					m.fail(s, "C13", "vote-power-mismatch", fmt.Sprintf("vote power %d of %s differs from its ledger total %d at height %d", v.Power, appdrv.Hex(v.Addr), d.Total, hq))
 				}
 				continue
@@ -723,9 +723,6 @@ func (m *Monitor) checkValset(s *apphist.Sim, h int64, pre *State) {
 					}
 				}
 			}
-			if s.EverRestarted {
-				kind += "-after-restart"
-			}
 			m.tmKind = kind
 		}
 		m.fail(s, "C10", m.tmKind, s.TMError)
@@ -774,9 +771,7 @@ func (m *Monitor) checkValset(s *apphist.Sim, h int64, pre *State) {
 	}
 	if !same {
 		kind := "valset-mirror"
-		if s.EverRestarted {
-			kind = "valset-mirror-after-restart"
-		} else if m.block1Changed {
+		if m.block1Changed {
 			kind = "valset-mirror-block1"
 		}
 		m.fail(s, "C10", kind, fmt.Sprintf("after block %d Tendermint's validator set is %v, the ledger committed by block %d says %v", h, got, h-1, want))
